@@ -432,8 +432,17 @@ pub fn moment_expect(which: Moment, vals: &[f64], e: &ErrCtx) -> Expect {
                 return Expect::Null;
             }
             let (fl, vp, _) = var_floor(vals, e);
+            if vals.iter().all(|v| v.to_bits() == vals[0].to_bits()) {
+                // constant window: the statistic is 0/0. Any from-scratch evaluation in floating
+                // point gives NaN or some value within the attainable range of the statistic on n
+                // points (|G1| <= sqrt(n), |G2| <= 10 n^2); whatever convention the library returns
+                // (0, null), cancellation noise of the order 1e8 is not "equal up to rounding" to any
+                // of them.
+                let range = if which == Moment::Skew { nf.sqrt() * 1.000001 } else { 10.0 * nf * nf };
+                return Expect::OneOf(vec![Expect::Null, Expect::Approx { v: 0.0, hw: range }]);
+            }
             if vp <= 0.0 {
-                return Expect::Any("skew/kurt of a constant window is undefined");
+                return Expect::Any("skew/kurt of a window without spread in floating point");
             }
             let (c, hw) = if which == Moment::Skew {
                 let (_, hw) = perturb(|s| raw_skew(s, nf), s, d);
